@@ -108,6 +108,8 @@ let split_ws s = List.filter (fun x -> x <> "") (String.split_on_char ' ' (Strin
 let scause = function
   | CStop -> "stop" | CFail e -> Printf.sprintf "fail:%d" (int_of_n e)
   | CKill e -> Printf.sprintf "kill:%d" (int_of_n e) | CDrop -> "drop"
+let stk = function TFixed -> "f" | TMax -> "x" | TMin -> "n"
+let ptk_s = function "f" -> TFixed | "x" -> TMax | "n" -> TMin | x -> raise (Parse ("tk " ^ x))
 let sq = function QMain -> "m" | QLazy -> "l" | QIdle -> "i" | QTimer -> "t"
 let sb b = if b then "1" else "0"
 let i = int_of_n
@@ -141,6 +143,8 @@ let sev = function
   | EReq (a, c) -> Printf.sprintf "req %d %s" (i a) (scause c)
   | ENotify (a, c) -> Printf.sprintf "notify %d %s" (i a) (match c with Some c -> scause c | None -> "none")
   | EValDrop a -> Printf.sprintf "valdrop %d" (i a)
+  | EOrphNew a -> Printf.sprintf "orphnew %d" (i a)
+  | EOrphDrop a -> Printf.sprintf "orphdrop %d" (i a)
   | ERetNew r -> Printf.sprintf "retnew %d" (i r)
   | ERet (r, m) -> Printf.sprintf "ret %d %s" (i r) (match m with Some v -> string_of_int (i v) | None -> "none")
   | EFwdNew f -> Printf.sprintf "fwdnew %d" (i f)
@@ -149,6 +153,8 @@ let sev = function
   | ETokNew t -> Printf.sprintf "toknew %d" (i t)
   | ETokDrop t -> Printf.sprintf "tokdrop %d" (i t)
   | ELog (id, l, p, m) -> Printf.sprintf "log %d %d %d %d" (zi id) (zi l) (zi p) (i m)
+  | ETimerVar (k, v, u) -> Printf.sprintf "tvar %s %d %d" (stk k) (i v) (i u)
+  | ETimerDel (k, v, b) -> Printf.sprintf "tdel %s %d %s" (stk k) (i v) (sb b)
   | EBool (t, b) -> Printf.sprintf "bool %d %s" (i t) (sb b)
   | ENum (t, n) -> Printf.sprintf "num %d %d" (i t) (zi n)
   | ELeak (k, id) -> Printf.sprintf "leak %d %d" (i k) (i id)
@@ -195,6 +201,8 @@ let pev (ws : string list) : ev option =
   | ["req"; a; c] -> Some (EReq (n a, pcause c))
   | ["notify"; a; c] -> Some (ENotify (n a, if c = "none" then None else Some (pcause c)))
   | ["valdrop"; a] -> Some (EValDrop (n a))
+  | ["orphnew"; a] -> Some (EOrphNew (n a))
+  | ["orphdrop"; a] -> Some (EOrphDrop (n a))
   | ["retnew"; r] -> Some (ERetNew (n r))
   | ["ret"; r; m] -> Some (ERet (n r, if m = "none" then None else Some (n m)))
   | ["fwdnew"; f] -> Some (EFwdNew (n f))
@@ -203,6 +211,8 @@ let pev (ws : string list) : ev option =
   | ["toknew"; t] -> Some (ETokNew (n t))
   | ["tokdrop"; t] -> Some (ETokDrop (n t))
   | ["log"; id; l; p; m] -> Some (ELog (z id, z l, z p, n m))
+  | ["tvar"; k; v; u] -> Some (ETimerVar (ptk_s k, n v, n u))
+  | ["tdel"; k; v; x] -> Some (ETimerDel (ptk_s k, n v, b x))
   | ["bool"; t; x] -> Some (EBool (n t, b x))
   | ["num"; t; x] -> Some (ENum (n t, z x))
   | ["leak"; k; id] -> Some (ELeak (n k, n id))
